@@ -9,6 +9,7 @@ GEN = re.compile(r'::<(?!impl )[^<>]*(?:<[^<>]*(?:<[^<>]*>[^<>]*)*>[^<>]*)*>')
 
 
 def strip_generics(c):
+    c = c.replace('->', '\u2192')          # `fn(A) -> B {path}` inside generic arguments: the arrow is not a closing bracket
     prev = None
     while prev != c:
         prev = c
@@ -285,6 +286,19 @@ class Models:
             payload = v[3][0] if v[3] else ('unit',)
             clos = lambda a: d(a) if a[0] == 'ref' else a
             is_clos = lambda a: clos(a)[0] == 'adt' and str(clos(a)[1]).startswith('{closure@')
+            fnarg = argv[-1] if argv[-1][0] == 'fnitem' else None
+            if fnarg is not None and meth in ('map', 'and_then', 'map_err', 'unwrap_or_else', 'map_or'):
+                # a function item instead of a closure: apply the named function to the payload
+                takes = {'map': good, 'and_then': good, 'map_err': not good, 'unwrap_or_else': not good, 'map_or': good}[meth]
+                if not takes:
+                    return one(argv[1] if meth == 'map_or' else (payload if meth == 'unwrap_or_else' else v))
+                wrapf = {'map': (ok if ty == 'Result' else some), 'map_err': err}.get(meth)
+                r = self.dispatch(m, st, fid, fnarg[1], [payload] if not (meth == 'unwrap_or_else' and ty == 'Option') else [])
+                if isinstance(r, tuple) and r and r[0] == 'push':
+                    return ('push', r[1], r[2], wrapf)
+                if isinstance(r, list):
+                    return [(cnd, (wrapf(val) if (wrapf and val is not None and val[0] != 'panic') else val)) for cnd, val in r]
+                raise Stuck('function item %s as combinator argument' % fnarg[1])
             if meth == 'map_or':
                 if not good:
                     return one(argv[1])
